@@ -103,6 +103,7 @@ var pairings = []pairing{
 
 func (r *reporter) agreeM(op, opts string, p pairing, oa, ob outcome, ma, mb ConstMatrix, kappa float64) {
 	r.nchecks++
+	r.count("agree:" + op + "/" + opts + ":" + oa.class())
 	if oa.loud() != ob.loud() {
 		r.mismatch(op, p.a.name+"/"+p.b.name, opts, p.what, vh.M{"diff": "outcome"}, vh.M{"a": oa.String(), "b": ob.String()})
 		return
@@ -229,9 +230,21 @@ func (r *reporter) c06MatCase(c *MatCase) {
 				r.agreeV("determinant", "pd+log", p, oa, ob, da, db, kappa)
 			}
 		}
-		if c.Spd {
-			chol := func(ti tinfo, args ...interface{}) (outcome, Matrix, Matrix) {
+		if c.Sym {
+			// every option combination of cholesky.Run on symmetric input, positive
+			// definite or not (plain and LDL must then fail alike on both paths,
+			// ForcePD modifies the factorisation): specialised float path against the
+			// generic path, default / fresh / dirty caller-supplied buffers
+			chol := func(ti tinfo, buf int, args ...interface{}) (outcome, Matrix, Matrix) {
 				var l, d Matrix
+				switch buf {
+				case 1:
+					args = append(args, &cholesky.InSitu{L: NullDenseMatrix(ti.t, n, n), D: NullDenseMatrix(ti.t, n, n),
+						S: NullScalar(ti.t), T: NullScalar(ti.t)})
+				case 2:
+					args = append(args, &cholesky.InSitu{L: dirtyMatrix(ti.t, n), D: dirtyMatrix(ti.t, n),
+						S: junkScalar(ti.t, 7), T: junkScalar(ti.t, 8)})
+				}
 				o := call(func() error {
 					var err error
 					l, d, err = cholesky.Run(mkMatrix(ti.t, c.A), args...)
@@ -239,31 +252,63 @@ func (r *reporter) c06MatCase(c *MatCase) {
 				})
 				return o, l, d
 			}
-			// the plain factor is also known exactly: it is the integer L of the family
-			for _, ti := range []tinfo{p.a, p.b} {
-				o, l, _ := chol(ti)
-				r.judgeM("cholesky", ti.name, "default", nil, o, l, expectInv{intM(c.L), kappa, "none"}, ti.tol, n)
+			if c.Spd {
+				// the plain factor is also known exactly: it is the integer L of the family
+				for _, ti := range []tinfo{p.a, p.b} {
+					o, l, _ := chol(ti, 0)
+					r.judgeM("cholesky", ti.name, "default", nil, o, l, expectInv{intM(c.L), kappa, "none"}, ti.tol, n)
+				}
 			}
 			for _, cfg := range []struct {
 				opts string
 				args []interface{}
 			}{
 				{"default", nil},
+				{"forcepd", []interface{}{cholesky.ForcePD{Value: true}}},
 				{"ldl", []interface{}{cholesky.LDL{Value: true}}},
 				{"ldl+forcepd", []interface{}{cholesky.LDL{Value: true}, cholesky.ForcePD{Value: true}}},
 			} {
-				oa, la, da := chol(p.a, cfg.args...)
-				ob, lb, db := chol(p.b, cfg.args...)
-				r.agreeM("cholesky", cfg.opts, p, oa, ob, la, lb, kappa)
-				if da != nil && db != nil {
-					r.agreeM("cholesky", cfg.opts+"/D", p, oa, ob, da, db, kappa)
+				for buf, bname := range []string{"", "+insitu_fresh", "+insitu_dirty"} {
+					oa, la, da := chol(p.a, buf, cfg.args...)
+					ob, lb, db := chol(p.b, buf, cfg.args...)
+					lo, hi := lowerPart(la), lowerPart(lb)
+					r.agreeM("cholesky", cfg.opts+bname, p, oa, ob, lo, hi, kappa)
+					if da != nil && db != nil {
+						r.agreeM("cholesky", cfg.opts+bname+"/D", p, oa, ob, diagPart(da), diagPart(db), kappa)
+					}
 				}
 			}
+		}
+		if c.Spd {
 			oa, ma := inv(p.a, matrixInverse.PositiveDefinite{Value: true})
 			ob, mb := inv(p.b, matrixInverse.PositiveDefinite{Value: true})
 			r.agreeM("inverse", "pd", p, oa, ob, ma, mb, kappa)
 		}
 	}
+}
+
+// the factor is defined by its lower triangle, D by its diagonal; what a
+// caller-supplied buffer held elsewhere is not part of the result
+func lowerPart(m Matrix) ConstMatrix {
+	if m == nil {
+		return nil
+	}
+	return lowerView{m}
+}
+
+type diagView struct{ Matrix }
+
+func (d diagView) ConstAt(i, j int) ConstScalar {
+	if i != j {
+		return ConstFloat64(0)
+	}
+	return d.Matrix.ConstAt(i, j)
+}
+func diagPart(m Matrix) ConstMatrix {
+	if m == nil {
+		return nil
+	}
+	return diagView{m}
 }
 
 // ---------------------------------------------------------------- derivative tables
